@@ -11,6 +11,7 @@ for p in tools/gen_*.py; do
   case "$p" in
     tools/gen_keys.py) python3 "$p" "$REPO" lean/IndicatifModel/Generated/Keys.lean ;;
     tools/gen_atomics.py) python3 "$p" "$REPO" lean/IndicatifModel/Generated/Atomics.lean ;;
+    tools/gen_unwraps.py) python3 "$p" "$REPO" lean/IndicatifModel/Generated/Unwraps.lean ;;
   esac
 done
 ( cd lean
